@@ -242,11 +242,14 @@ class AnchorError(Exception):
 def load_program(fresh=False):
     d, info = _extract.extract(fresh=fresh)
     data = _extract.load(d)
-    from . import inline
+    from . import inline, renames
+    renamed = renames.normalize(data, inline.load_adts())
+    renamed += renames.normalize_files(data, inline.load_files())
     n = inline.apply(data)
     prog = Program(data)
     prog.info = dict(info)
     prog.info["inlined_call_sites"] = n
+    prog.info["renamed"] = renamed + list(inline.LOCAL_RENAMES)
     return prog
 
 
